@@ -280,6 +280,13 @@ func (v *Verifier) callFn(st *State, in *ssa.Call, fn *ssa.Function, bindings []
 	}
 	c := v.contractFor(fn)
 	useContract := c != nil && !c.Inline && !st.initMod
+	if useContract && v.topC != nil {
+		for _, k := range v.topC.Inlines {
+			if k == c.Key {
+				useContract = false
+			}
+		}
+	}
 	if useContract && c.IsIface {
 		useContract = false
 	}
